@@ -113,7 +113,9 @@ def install(e, rec, verdict):
 class TokInt(Tok):
     def __pyvc_attr__(self, eng, name):
         if name == 'to_bytes':
-            return F(lambda e, a, k: GB([C('BE32', repr(self))]))
+            # BE32 only for the protocol's layout (32 bytes, big endian); any other width / byte order is a different term
+            return F(lambda e, a, k: GB([C('BE32', repr(self))]) if (tuple(a) == (32, 'big') and not k) or (not a and k == dict(length=32, byteorder='big'))
+                     else GB([C('TO_BYTES', repr(self), repr(tuple(a)), repr(sorted(k.items())))]))
         return super().__pyvc_attr__(eng, name)
 
 
@@ -176,15 +178,16 @@ class SigTok(Tok):
         raise Unsupported('signature slice')
 
 
-def h_verify(curve, sig_prefix, public=True):
+def h_verify(curve, sig_prefix, public=True, secret=True):
+    """secret=False: a key object holding ONLY the public part (what CHECK_SIGNATURE and every third party has)"""
     from pytezos.crypto.key import Key
 
     def h(e: Engine):
         rec = Rec()
         verdict = e.bool('primitive_accepts').e
         install(e, rec, verdict)
-        key = mk_key(curve, True, public)
-        tag = f'Key.verify[{curve.decode()},sig={sig_prefix.decode()},public={public}]'
+        key = mk_key(curve, secret, public)
+        tag = f'Key.verify[{curve.decode()},sig={sig_prefix.decode()},public={public}{"" if secret else ",public-only key"}]'
         mismatch = sig_prefix[:3] != b'sig' and sig_prefix[:2] != curve
         try:
             r = e.call(BoundM(Key.__dict__['verify'], key), [SigTok(sig_prefix), Tok('m')], {})
@@ -243,6 +246,67 @@ def h_verify_twice(curve):
     return h
 
 
+def h_verify_seq(curve, name, steps):
+    """Sequences of verify calls: the verdict of call i is the verdict the primitive gives for (key_i, signature_i, message_i),
+    whatever was verified before (no remembered verdict, positive or negative, on the key object, the class or the module).
+    steps: list of (key id 'a'|'b'|'a_public_only', signature id, message id, primitive verdict)."""
+    from pytezos.crypto.key import Key
+
+    def h(e: Engine):
+        rec = Rec()
+        keys = {'a': mk_key(curve), 'b': mk_key(curve), 'a_public_only': mk_key(curve, secret=False)}
+        keys['b'].f['public_point'] = Tok('other_pk')
+        sigs = {'s1': SigTok(curve + b'sig'), 's2': SigTok(curve + b'sig'), 'g1': SigTok(b'sig')}
+        sigs['s2'].name += '#2'
+        msgs = {'m1': Tok('m1'), 'm2': Tok('m2')}
+        tag = f'Key.verify[{curve.decode()},sequence: {name}]'
+        for i, (k, sg, m, accept) in enumerate(steps):
+            install(e, rec, z3.BoolVal(accept))
+            n0 = len([c for c in rec.calls if 'verify' in c[0]])
+            try:
+                r = e.call(BoundM(Key.__dict__['verify'], keys[k]), [sigs[sg], msgs[m]], {})
+            except RaiseEx as ex:
+                e.check(f'{tag}::step{i}.raises.only_if(the primitive rejects THIS triple)', z3.BoolVal((not accept) and isinstance(ex.exc, ValueError)))
+                r = None
+            else:
+                e.check(f'{tag}::step{i}.returns_True.only_if(the primitive accepts THIS triple)', z3.BoolVal(accept and r is True))
+            vs = [c for c in rec.calls if 'verify' in c[0]][n0:]
+            e.check(f'{tag}::step{i}.ensures.primitive_consulted_once_for_this_call', z3.BoolVal(len(vs) == 1))
+    return h
+
+
+SEQUENCES = [
+    ('rejected for another message, then the valid triple', [('a', 's1', 'm2', False), ('a', 's1', 'm1', True)]),
+    ('accepted, then another message under the same key and signature', [('a', 's1', 'm1', True), ('a', 's1', 'm2', False)]),
+    ('accepted, then another signature for the same key and message', [('a', 's1', 'm1', True), ('a', 's2', 'm1', False), ('a', 's1', 'm1', True)]),
+    ('rejected under another key, then accepted under the signer', [('b', 's1', 'm1', False), ('a', 's1', 'm1', True), ('b', 's1', 'm1', False)]),
+    ('generic after specific, public-only after full key', [('a', 's1', 'm1', True), ('a', 'g1', 'm1', False), ('a_public_only', 'g1', 'm1', True), ('a_public_only', 's1', 'm2', False)]),
+]
+
+
+def h_sign_seq(curve):
+    """two signing requests on ONE key object: the second result is that of its own (message, generic) arguments"""
+    from pytezos.crypto.key import Key
+
+    def h(e: Engine):
+        rec = Rec()
+        install(e, rec, z3.BoolVal(True))
+        import fastecdsa.ecdsa
+        e.stub(fastecdsa.ecdsa.sign, lambda eng, a, k: (rec.calls.append(('p2.sign', (), {kk: describe(v) if kk != 'hashfunc' else 'hashfunc' for kk, v in k.items()})), (TokInt('r'), TokInt('s')))[1])
+        key = mk_key(curve)
+        tag = f'Key.sign[{curve.decode()},sequence on one key object]'
+        outs = []
+        for i, (m, generic) in enumerate((('m1', False), ('m1', True), ('m2', False))):
+            n0 = len(rec.calls)
+            r = e.call(BoundM(Key.__dict__['sign'], key), [Tok(m)], dict(generic=generic))
+            prefix = b'sig' if (generic and curve != b'BL') else curve + b'sig'
+            e.check(f'{tag}::step{i}.ensures.prefix_of_this_request({prefix.decode()})', z3.BoolVal(isinstance(r, Tok) and r.name.startswith(f'b58({prefix!r},')))
+            signed = [c for c in rec.calls[n0:] if c[0].endswith('.sign')]
+            seen = repr(signed) + repr([c for c in rec.calls[n0:] if c[0] == 'generichash'])
+            e.check(f'{tag}::step{i}.ensures.signing_primitive_called_for_this_message', z3.BoolVal(len(signed) == 1 and f'<{m}>' in seen))
+    return h
+
+
 def h_pkh(curve):
     from pytezos.crypto.key import Key
 
@@ -287,6 +351,18 @@ def run_sign_verify(ck):
         report(ck, eng, [])
         eng = Engine()
         run_harness(ck, eng, h_verify_twice(curve), f'verify_twice[{curve}]')
+        report(ck, eng, [])
+        # widened: key objects holding only the public part; sequences of calls in other orders than accept(A) -> reject(B)
+        for sp in (b'sig', curve + b'sig', b'edsig' if curve != b'ed' else b'p2sig'):
+            eng = Engine()
+            run_harness(ck, eng, h_verify(curve, sp, secret=False), f'verify[{curve},{sp},public-only]')
+            report(ck, eng, [])
+        for name, steps in SEQUENCES:
+            eng = Engine()
+            run_harness(ck, eng, h_verify_seq(curve, name, steps), f'verify_seq[{curve},{name}]')
+            report(ck, eng, [])
+        eng = Engine()
+        run_harness(ck, eng, h_sign_seq(curve), f'sign_seq[{curve}]')
         report(ck, eng, [])
 
 
